@@ -43,6 +43,8 @@ def _run_variant(args):
                 chk = Check(pid, 'quick', repo)
                 mod = importlib.import_module(f'sa.props.{pid}')
                 mod.run(chk, repo, 'quick')
+                from .main import generic_rules
+                generic_rules(chk, repo, pid)
                 res[pid] = ('violation', [(v['rule'], v['where'], v['instance'][:120]) for v in chk.violations[:3]]) \
                     if chk.violations else ('clean', [])
             except AnalysisError as e:
